@@ -131,6 +131,15 @@ Theorem c09_integration_fail_classes :
 Proof. exact fail_classes. Qed.
 Print Assumptions c09_integration_fail_classes.
 
+(* the CPU reading that feeds the shedder is smoothed with fixed weights from the first sample on (lib/stat/usage.go:
+   next = 0.95 pre + 0.05 sample, Link.link_usage): after the smoothed value has been exactly 0, ONE sample -- however
+   hot -- leaves it at 5% of the sample, far below the threshold; every step stays within 5% of the sample *)
+Theorem c09_cpu_one_hot_sample :
+  (forall s, 0 <= s <= 2000 -> 0 <= cpu_next 0 s <= 100) /\
+  (forall pre s, 0 <= pre -> 0 <= s -> (95 * pre) / 100 <= cpu_next pre s <= (95 * pre) / 100 + s / 20 + 1).
+Proof. exact (conj cpu_one_hot_sample cpu_next_bounds). Qed.
+Print Assumptions c09_cpu_one_hot_sample.
+
 (* ---------------- non-vacuity and documented observations ---------------- *)
 
 (* a history with a gap longer than the window and one inside it *)
